@@ -259,6 +259,15 @@ def _par_deep(tier, seed, props, mode):
     return out
 
 
+def _knap_bundles(tier, seed, props):
+    """bounded knapsack (each item 0..3 times: non-binary domains, value-ordered states, first layer wider than the width)"""
+    limk = dict(max_paths=1500, max_secs=20) if tier == "quick" else dict(max_paths=40000, max_secs=900)
+    out = []
+    for k in range(8 if tier == "quick" else 32):
+        out.append(P(kind="knap", dd=DD3[k % 3], cache=str(k % 2), dom="off", width="2,3", fringe=("nodup" if k % 4 == 3 else "simple"), n=3, nsym=3, copies=3, seed=seed * 1000 + 1 + k, props=props, **limk))
+    return out
+
+
 def plan(prop, tier, seed, find):
     """returns dict(engine, bundles, prefixes, vacuity, functions, bounds, nontrivial(rule text, fn))"""
     bound_dd = ("table models over mask states: n<=4 variables, <=3 base states, 2-3 decisions; all symbolic arc costs in +-10^6, incumbent in +-10^7 or none, "
@@ -305,10 +314,10 @@ def plan(prop, tier, seed, find):
         return out_
 
     if prop == "C01":
-        return dict(engine="symx", bundles=_solve_bundles(tier, seed, find, "C01", ["plain"], directed=("dead_end",)) + cached_directed("C01"), prefixes=["C01:", "nontermination"], vacuity=dict(explored_ge2=1, merge=1), functions=FUNCS_SOLVE, bounds=bound_solve,
+        return dict(engine="symx", bundles=_solve_bundles(tier, seed, find, "C01", ["plain"], directed=("dead_end",)) + cached_directed("C01") + _knap_bundles(tier, seed, "C01"), prefixes=["C01:", "nontermination"], vacuity=dict(explored_ge2=1, merge=1), functions=FUNCS_SOLVE, bounds=bound_solve,
                     nontrivial=("decided sub-case in which the solver processed >= 2 sub-problems on some path", lambda r: r["notes"].get("explored_ge2", 0) > 0))
     if prop == "C02":
-        return dict(engine="symx", bundles=_solve_bundles(tier, seed, find, "C02", ["plain", "cutoff"], nseeds=(1 if tier == "quick" else 6)) + _par_bundles(tier, seed, "C02", ["plain", "cutoff"], nseeds=(1 if tier == "quick" else 4), dds=["lel", "pooled"]), prefixes=["C02:"], vacuity=dict(interrupted=1, not_interrupted=1), functions=FUNCS_SOLVE, bounds=bound_solve + "; cut-off poll K symbolic in 1..40 (every poll of the run forks)",
+        return dict(engine="symx", bundles=_solve_bundles(tier, seed, find, "C02", ["plain", "cutoff"], nseeds=(1 if tier == "quick" else 6)) + _par_bundles(tier, seed, "C02", ["plain", "cutoff"], nseeds=(1 if tier == "quick" else 4), dds=["lel", "pooled"]) + _knap_bundles(tier, seed, "C02"), prefixes=["C02:"], vacuity=dict(interrupted=1, not_interrupted=1), functions=FUNCS_SOLVE, bounds=bound_solve + "; cut-off poll K symbolic in 1..40 (every poll of the run forks)",
                     nontrivial=("decided sub-case with >= 2 explored paths", lambda r: r["paths"] >= 2))
     if prop == "C05":
         return dict(engine="symx", bundles=_solve_bundles(tier, seed, find, "C05", ["cutoff"]) + _polls_bundles(tier, seed, "C05") + _par_bundles(tier, seed, "C05", ["cutoff"], nseeds=(1 if tier == "quick" else 6)) + _par_deep(tier, seed, "C05", "cutoff"), prefixes=["C05:"], vacuity=dict(interrupted=1, not_interrupted=1, polls_ge8=1), functions=FUNCS_SOLVE, bounds=bound_solve + "; cut-off poll K symbolic in 1..40 (sequential solver; parallel part see C05 in DESIGN.md)",
@@ -407,6 +416,10 @@ def plan(prop, tier, seed, find):
         for k in range(nb):
             for fr in ("nodup", "simple"):
                 b.append(P(kind="fringe", fringe=fr, len=(6 if tier == "quick" else 8), states=2, depths=2, seed=base + 1 + 5 * k, count=5, **lim))
+        # heap-shaped histories: 4-5 pushes on distinct keys, optional re-push / early pop, then drained
+        for k in range(6 if tier == "quick" else 24):
+            for fr in ("nodup", "simple"):
+                b.append(P(kind="fringe", fringe=fr, fill=(4 if k % 2 == 0 else 5), states=3, depths=2, seed=base + 300 + 3 * k, count=3, **(dict(max_paths=2500, max_secs=30) if tier == "quick" else lim)))
         # solver level: models whose state does not embed the depth, duplicate-free fringe
         fams = [dict(n=3, b=2, d=2, setnext=1, nsym=5, depth_free=1), dict(n=4, b=2, d=2, setnext=0, nsym=5, depth_free=1)]
         b += _solve_bundles(tier, seed, find, "C11", ["plain"], fams=fams, fringes=("nodup",), nseeds=(2 if tier == "quick" else 8))
